@@ -38,6 +38,13 @@ def jOutcome : Outcome → Json
 def candidates (e : Err) (pid : Nat) : List Outcome :=
   [.value, .nsp pid true, .nsp pid false, .zombie pid true, .zombie pid false, .ad pid true, .ad pid false, .raw e]
 
+/-- (world as the module's probe derives it from the native status code, world the specification
+    speaks about). Without a status code (`gone`, `alive`) both are the given state. -/
+def envs (p : Platform) (pid : Nat) (state : PidState) (pid0 : Bool) (zcode : Option String) : Env × Env :=
+  match state, zcode with
+  | .zombie, some c => (probeEnv zcfg p pid (some c) pid0, Spec.docEnv p pid (some c) pid0)
+  | _, _ => (⟨pid, state, pid0⟩, ⟨pid, state, pid0⟩)
+
 def handleFault (j : Json) : R Json := do
   let p ← strF j "plat" >>= parsePlat
   let meth ← strF j "meth"
@@ -52,8 +59,9 @@ def handleFault (j : Json) : R Json := do
     | some m => pure m
     | none => .error s!"method {meth} is not in the generated method list of {p.key}"
   let e : Err := ⟨errno, winerror⟩
-  let env : Env := ⟨pid, state, pid0⟩
-  let (o, sleeps) := methodFault cfg p m call e env persistent
+  let zcode ← optF asStr j "zcode"
+  let (envM, env) := envs p pid state pid0 zcode
+  let (o, sleeps) := methodFault cfg p m call e envM persistent
   let r := Spec.recoverable p meth call
   let allowed := (candidates e pid).filter (Spec.allowed p meth r e env)
   return jObj [
@@ -85,12 +93,13 @@ def handleFault2 (j : Json) : R Json := do
     | none => .error s!"method {meth} is not in the generated method list of {p.key}"
   let e1 : Err := ⟨errno1, win1⟩
   let e2 : Err := ⟨errno2, win2⟩
-  let env : Env := ⟨pid, state, pid0⟩
-  let (o, sleeps) := methodFault2 cfg p m call1 e1 call2 e2 env
+  let zcode ← optF asStr j "zcode"
+  let (envM, env) := envs p pid state pid0 zcode
+  let (o, sleeps) := methodFault2 cfg p m call1 e1 call2 e2 envM
   let allowed := (candidates e2 pid).filter (Spec.allowed2 p meth call1 e1 call2 e2 env)
   return jObj [
     ("model", jObj [("o", jOutcome o), ("sleeps", jNat sleeps), ("wrapped", Json.bool m.wrapped),
-                    ("first", jAfter (afterFirst cfg p m call1 e1 env))]),
+                    ("first", jAfter (afterFirst cfg p m call1 e1 envM))]),
     ("spec", jObj [("cell", jOutcome (Spec.contract p.family e2 env)), ("allowed", jList jOutcome allowed),
                    ("retries", jNat 0)])]
 
